@@ -3,13 +3,12 @@ EXTENDS FKMNL, TLC
 CONSTANTS MaxRows
 VARIABLES part, inp, out
 vars == <<part, inp, out>>
-Slopes == {<<3, 5>>, <<5, 3>>, <<4, 4>>, <<2, 1>>}
+Slopes == {<<3, 5>>, <<5, 3>>, <<4, 4>>, <<2, 1>>, <<250, 250>>, <<120, 250>>}      \* incl. very flat curves (|d| = 0.004)
 JRange == -5..3
 RowSet == {<<e, c, r>> : e \in {-12, -10, -8, -6, -4, 1}, c \in BOOLEAN, r \in {1, 2}}
 Tables == {t \in UNION {[1..n -> RowSet] : n \in 1..MaxRows} :
              /\ \A i \in 1..(Len(t) - 1) : t[i][3] <= t[i+1][3]           \* first-pass rows first
              /\ t[Len(t)][3] = 2                                            \* at least one second-pass row
-             /\ \A i \in 1..Len(t) : (t[i][3] = 2 => t[i][2])              \* second pass: closed hystereses only (C04)
              /\ SumRun(t, 2) >= 4096                                        \* keeps the literal accumulation below ~32 repetitions
              /\ SumRun(t, 1) < One }                                       \* (failure inside the first pass is the "early" case, kept via e=-12 rows in pass 2)
 SaSet == {0, 1, 50, 300}
